@@ -184,4 +184,17 @@ var props = map[string]propDef{
 		Thorough:       budget{Runs: 8000, Chunk: 40, Wall: 40 * time.Minute, PerChunkGrace: 5 * time.Minute},
 		MinimiseBudget: 90 * time.Second,
 	},
+	"C27": {
+		Binary: "dsim-sql", Harness: "C27", Level: "exploration",
+		Rule: "each run = 2-3 sessions (autocommit drawn per session) on main plus one session on branch b1 of a fresh on-disk repository behind the production SQL engine; one keyless table kl(a, b) with a secondary index; 20-70 seeded statements: multi-row INSERT of duplicate rows, DELETE ... LIMIT n, UPDATE ... LIMIT n, COMMIT / ROLLBACK, edits on b1, CALL dolt_merge('b1'), clean restarts. The reference model is a multiset per session (snapshot + own writes) and per branch; transaction commits and branch merges combine multiplicity changes row by row (both sides changed the multiplicity of one row differently => must be reported as a conflict). Every GROUP BY over all columns, COUNT(*) and index lookup must equal the multiset. One evaluation = one checked read.",
+		Assumptions: []string{"statements are limited to forms the multiset model predicts exactly (which copies a LIMIT picks is immaterial: copies are indistinguishable)", "dolt_merge runs in an autocommit session, so a conflicting merge is rolled back and reported as an error"},
+		Real:        sqlReal, Stub: sqlStub, Persistence: "not used (clean restarts only)",
+		ExpectProbes:   []string{"commit_ok", "delete-with-limit", "update-with-limit", "branch-merge", "multiplicity-conflict-refused", "overlapping_transactions"},
+		Quick:          budget{Runs: 160, Chunk: 10, Wall: 150 * time.Second, PerChunkGrace: 120 * time.Second},
+		Thorough:       budget{Runs: 8000, Chunk: 40, Wall: 40 * time.Minute, PerChunkGrace: 5 * time.Minute},
+		MinimiseBudget: 90 * time.Second,
+	},
 }
+
+var sqlReal = []string{"cmd/dolt/commands/engine (production SqlEngine via NewSqlEngineForEnv)", "go-mysql-server engine, analyzer, executor", "sqle / dsess (sessions, transactions, transaction merge at commit, procedures)", "doltdb, merge, datas, prolly, nbs journaling store on the simulated OS"}
+var sqlStub = []string{"MySQL wire protocol and listener (sessions are created the way the handler does: own connection id, autocommit set explicitly)", "statement-level interleaving only (S0: one statement of one session at a time)", "stats / event scheduler / binlog background threads (left idle)", "clock (testing/synctest fake clock)"}
